@@ -83,6 +83,17 @@ func c10GenScript(r *fw.Rand) string {
 	}
 }
 
+// c10LongExpr is stored code that needs far more parser work than the scripts that use it.
+func c10LongExpr(r *fw.Rand) string {
+	n := fw.PickT(r, []int{50, 200, 600})
+	unit := r.Pick([]string{"1+", "(1)+", "[1][0]+", "x ? 1 : 2; "})
+	body := strings.TrimSuffix(strings.Repeat(unit, n), "+")
+	if strings.HasSuffix(body, "; ") {
+		body += "3"
+	}
+	return fmt.Sprintf("%q", body)
+}
+
 func c10Scalar(r *fw.Rand) string {
 	return r.Pick([]string{"1", "0", "-1", "1.5", "\"s\"", "\"\"", "null", "true", "false", "[]", "{}", "[1]", "{\"a\":1}", "9223372036854775807", "9223372036854775808", "1e400", "-0", "1e-400", "\"\\ud800\"", "[null]", "{\"list\":null}"})
 }
@@ -140,7 +151,7 @@ func c10Doc(r *fw.Rand, depth int) string {
 				attrs = `,"attrs":` + c10Scalar(r)
 			}
 		}
-		expr := r.Pick([]string{`"1+2"`, `"d6"`, `"this.a"`, `"1 +"`, `""`, `"x"`, `"&y"`, `"while 1 {}"`})
+		expr := r.Pick([]string{`"1+2"`, `"d6"`, `"this.a"`, `"1 +"`, `""`, `"x"`, `"&y"`, `"while 1 {}"`, c10LongExpr(r)})
 		if fault && r.Bool() {
 			expr = c10Scalar(r)
 		}
@@ -184,7 +195,7 @@ func c10Doc(r *fw.Rand, depth int) string {
 		}
 	case "8":
 		params := r.Pick([]string{`[]`, `["v"]`, `["a","b"]`, `null`, `[1]`, `"v"`, `[null]`})
-		expr := r.Pick([]string{`"v + 1"`, `""`, `"return 1"`, `"1 +"`, `"f()"`, `"d"`})
+		expr := r.Pick([]string{`"v + 1"`, `""`, `"return 1"`, `"1 +"`, `"f()"`, `"d"`, c10LongExpr(r)})
 		v = `{"expr":` + expr + `,"name":` + r.Pick([]string{`"f"`, `""`, `null`, `1`}) + `,"params":` + params + `}`
 		if fault && r.Bool() {
 			v = c10Scalar(r)
@@ -281,6 +292,45 @@ func c10Case(w *fw.W, idx int, r *fw.Rand) {
 				return
 			}
 		}
+	} else if r.P(1, 4) {
+		// the host decodes into values it holds itself (json.Unmarshal into a VMValue, a slice,
+		// a map or a struct field) instead of going through VMValueFromJSON
+		how := r.Intn(4)
+		desc = fmt.Sprintf("byValue=%d doc=%s", how, doc)
+		w.Begin(idx, desc)
+		pv, st := fw.Guard(func() {
+			switch how {
+			case 0:
+				v := &ds.VMValue{}
+				if err = json.Unmarshal([]byte(doc), v); err == nil {
+					val = v
+				}
+			case 1:
+				var vs []ds.VMValue
+				if err = json.Unmarshal([]byte("["+doc+"]"), &vs); err == nil && len(vs) == 1 {
+					val = &vs[0]
+				}
+			case 2:
+				var m map[string]ds.VMValue
+				if err = json.Unmarshal([]byte(`{"k":`+doc+`}`), &m); err == nil {
+					v := m["k"]
+					val = &v
+				}
+			default:
+				var s struct{ Val ds.VMValue }
+				if err = json.Unmarshal([]byte(`{"Val":`+doc+`}`), &s); err == nil {
+					val = &s.Val
+				}
+			}
+		})
+		if pv != nil {
+			w.Violate(idx, "panic", fw.PanicKey(pv, st), desc, "json.Unmarshal into a held value: "+fmt.Sprint(pv), nil)
+			return
+		}
+		if err == nil && val == nil {
+			err = fmt.Errorf("nothing decoded")
+		}
+		w.Count("decodes_into_held_values", 1)
 	} else {
 		pv, st := fw.Guard(func() { val, err = ds.VMValueFromJSON([]byte(doc)) })
 		if pv != nil {
@@ -313,6 +363,7 @@ func c10Case(w *fw.W, idx int, r *fw.Rand) {
 	cfg := AllDice()
 	cfg.OpLimit = 5000
 	cfg.Seed = 11
+	cfg.ParseLimit = fw.PickT(r, []uint64{0, 0, 300, 20000}) // a host that also limits parser work
 	// the operations the VM applies to arbitrary operands, called directly with hostile arguments
 	{
 		ctx := cfg.NewVM()
